@@ -357,7 +357,8 @@ class SublineHeader(Contract):
         rp = rope_of(r)
         ps = rp.pieces
         if len(ps) == 0 or (len(ps) == 1 and isinstance(ps[0], str) and ps[0] == ""):
-            return {"empty_result_only_when_nothing_to_show": z3.BoolVal(True)}
+            # '' is returned on the path where the joined group text is empty (the path condition says so): nothing to prove about ''
+            return {}
         b, l = rope_bal_low(r)
         tags = [p.tag if isinstance(p, Tok) else ("RAW" if z3.is_expr(p) else "lit") for p in ps]
         first = ps[0] if isinstance(ps[0], str) else ""
